@@ -96,6 +96,7 @@ import (
 	"fmt"
 	"sort"
 	"strings"
+	"unicode/utf8"
 	"unsafe"
 	_ "unsafe" // for linkname hack
 
@@ -544,6 +545,11 @@ func toProto(fdesc protoreflect.FieldDescriptor, v starlark.Value) (protoreflect
 
 	case protoreflect.StringKind:
 		if s, ok := starlark.AsString(v); ok {
+			// A proto3 string must be valid UTF-8, otherwise
+			// the message can no longer be marshalled.
+			if fdesc.Syntax() == protoreflect.Proto3 && !utf8.ValidString(s) {
+				return noValue, fmt.Errorf("invalid UTF-8 in string for %s", typeString(fdesc))
+			}
 			return protoreflect.ValueOfString(s), nil
 		}
 		// A bytes value is not accepted for a string field: storing
